@@ -82,7 +82,7 @@ func (p *c19) history(i int) c19history {
 		return h
 	}
 	r := gen.Rng(p.seed, "c19", i)
-	g := &gen.ProgGen{R: r, Hostile: r.Intn(2) == 0, Vars: c02vars, SingleEntryHashes: true,
+	g := &gen.ProgGen{R: r, Hostile: r.Intn(2) == 0, Vars: c02vars, IterVars: c02IterVars, SingleEntryHashes: true,
 		Filters: []string{"wrap", "inc", "up", "ident", "b1"}, Funcs: []string{"fn", "num", "truth", "pair", "ident"}, Tests: []string{"pos", "eq", "divisible by", "empty"}}
 	ts, _ := g.Program()
 	src := (&Program{Templates: ts, Main: "main"}).sources(gen.Canon{})
